@@ -13,7 +13,11 @@ GENERATORS = [
     ("GenTermination.v", "tr_termination"),
     ("GenWelford.v", "tr_welford"),
     ("GenRegex.v", "tr_regex"),
-    ("GenFacts.v", "tr_facts"),
+    ("GenFactsKill.v", "tr_facts:generate_kill"),
+    ("GenFactsPersist.v", "tr_facts:generate_persist"),
+    ("GenFactsRewrite.v", "tr_facts:generate_rewrite"),
+    ("GenFactsBuild.v", "tr_facts:generate_build"),
+    ("GenFactsSession.v", "tr_facts:generate_session"),
     ("GenIdentity.v", "tr_identity"),
 ]
 
@@ -21,14 +25,15 @@ GENERATORS = [
 def run(repo, gendir):
     os.makedirs(gendir, exist_ok=True)
     errors = {}
-    for fname, modname in GENERATORS:
+    for fname, modspec in GENERATORS:
+        modname, _, func = modspec.partition(":")
         path = os.path.join(gendir, fname)
         if not os.path.exists(os.path.join(os.path.dirname(os.path.abspath(__file__)), modname + ".py")):
             continue
         try:
             mod = importlib.import_module(modname)
             importlib.reload(mod)
-            text = mod.generate(repo)
+            text = getattr(mod, func or "generate")(repo)
         except Exception as exc:  # Reject, SyntaxError, ...
             errors[fname] = "%s: %s" % (type(exc).__name__, exc)
             if os.path.exists(path):
